@@ -179,12 +179,16 @@ class Program:
         for m in self.modules.values():
             self.n_calls += sum(isinstance(n, ast.Call) for n in ast.walk(m.tree))
             for n in ast.walk(m.tree):
-                if isinstance(n, ast.Call) and isinstance(n.func, ast.Name) and n.func.id in (
-                    "getattr", "setattr", "eval", "exec", "__import__", "globals", "locals", "delattr",
-                ):
-                    raise AnalysisError(
-                        f"{m.relpath}:{n.lineno}: dynamic feature {n.func.id}() - effect analysis would be unsound"
-                    )
+                if isinstance(n, ast.Call) and isinstance(n.func, ast.Name):
+                    fid = n.func.id
+                    dynamic = fid in ("eval", "exec", "__import__", "globals", "locals", "vars")
+                    if fid in ("getattr", "setattr", "delattr", "hasattr"):
+                        # a constant attribute name is as static as obj.name; anything else defeats the effect analysis
+                        dynamic = not (len(n.args) >= 2 and isinstance(n.args[1], ast.Constant) and isinstance(n.args[1].value, str))
+                    if dynamic:
+                        raise AnalysisError(
+                            f"{m.relpath}:{n.lineno}: dynamic feature {fid}() - effect analysis would be unsound"
+                        )
         if len(self.modules) < FLOOR_FILES:
             raise AnalysisError(f"only {len(self.modules)} modules parsed (floor {FLOOR_FILES})")
         if len(self.functions) < FLOOR_FUNCS:
